@@ -67,6 +67,7 @@ type world struct {
 	hs      []SR
 	writers map[int]SW
 	nfwd    int
+	arena   []uint64 // backing array shared by the array sources with Spare == 1
 }
 
 func newWorld() *world { return &world{writers: map[int]SW{}} }
@@ -103,8 +104,21 @@ func (w *world) construct(o Op) O {
 		w.writers[len(w.hs)] = sw
 		rets = []SR{sr}
 	case "array":
-		xs := make([]uint64, len(o.Xs))
-		copy(xs, o.Xs)
+		var xs []uint64
+		if o.Spare == 1 {
+			// a window of the case's arena: legal use of the API (the caller slices one buffer into
+			// consecutive pieces and hands each to StreamReaderFromArray); the library must not
+			// write through the spare capacity of a piece into the next ones
+			if w.arena == nil {
+				w.arena = make([]uint64, 0, 512)
+			}
+			start := len(w.arena)
+			w.arena = append(w.arena, o.Xs...)
+			xs = w.arena[start:len(w.arena)]
+		} else {
+			xs = make([]uint64, len(o.Xs))
+			copy(xs, o.Xs)
+		}
 		rets = []SR{schema.StreamReaderFromArray(xs)}
 	case "copy":
 		if o.Via == "compose" {
